@@ -53,12 +53,12 @@ var (
 // arrays, structures, and object types. Callers call get* to access these properties.
 //
 // The properties we care about are:
-// - 4 required properties: title, type, image, url.
-// - 2 optional properties: description, site_name.
-// - image structured properties: image:url, image:secure_url, image:type, image:width, image:height
-// - profile object properties: first_name, last_name
-// - article object properties: section, published_time, modified_time, expiration_time, author;
-//                              each author is a URL to the author's profile.
+//   - 4 required properties: title, type, image, url.
+//   - 2 optional properties: description, site_name.
+//   - image structured properties: image:url, image:secure_url, image:type, image:width, image:height
+//   - profile object properties: first_name, last_name
+//   - article object properties: section, published_time, modified_time, expiration_time, author;
+//     each author is a URL to the author's profile.
 type Parser struct {
 	prefixes      PrefixNameList
 	propertyTable map[string]string
@@ -152,69 +152,65 @@ func (ps *Parser) findPrefixes(root *html.Node) {
 }
 
 func (ps *Parser) parseMetaTags(root *html.Node) {
-	// Fetch meta nodes
-	var metaNodes []*html.Node
-	if doPrefixFiltering {
-		// Attribute selectors with prefix
-		// https://developer.mozilla.org/en-US/docs/Web/CSS/Attribute_selectors
-		query := ""
-		for _, prefix := range ps.prefixes {
-			query += `meta[property^=` + prefix + `],`
-		}
-
-		query = strings.TrimSuffix(query, ",")
-		metaNodes = dom.QuerySelectorAll(root, query)
-	} else {
-		metaNodes = dom.QuerySelectorAll(root, "meta[property]")
-	}
+	// Fetch meta nodes. All of them: the names in a property attribute are
+	// not always the first thing in it (see below).
+	metaNodes := dom.QuerySelectorAll(root, "meta[property]")
 
 	// The profile and article properties are only used for objects of that type,
 	// and the tags of a page come in any order: look up the type of the object
 	// before anything else, so properties that precede "og:type" count as well.
 	typeProperty := ps.prefixes[OG] + ":" + TypeProp
 	for _, meta := range metaNodes {
-		if strings.ToLower(dom.GetAttribute(meta, "property")) == typeProperty {
-			ps.propertyTable[TypeProp] = dom.GetAttribute(meta, "content")
+		for _, property := range strings.Fields(strings.ToLower(dom.GetAttribute(meta, "property"))) {
+			if property == typeProperty {
+				ps.propertyTable[TypeProp] = dom.GetAttribute(meta, "content")
+			}
 		}
 	}
 
 	// Parse property
 	for _, meta := range metaNodes {
 		content := dom.GetAttribute(meta, "content")
-		property := dom.GetAttribute(meta, "property")
-		property = strings.ToLower(property)
 
-		// Only store properties that we care about for distillation.
-		for _, importantProperty := range importantProperties {
-			prefixWithColon := ps.prefixes[importantProperty.Prefix] + ":"
+		// The value of the property attribute is a list of names separated by white
+		// space (RDFa), e.g. "og:title twitter:title", in any letter case.
+		for _, property := range strings.Fields(strings.ToLower(dom.GetAttribute(meta, "property"))) {
+			ps.parseProperty(property, content)
+		}
+	}
+}
 
-			// Note that `==` won't work for "image:" (ImageStructPropPfx), which stands
-			// for all image structured properties so as to prevent repetitive property
-			// name comparison - here and then again in ImageParser. Every other name has
-			// to match as a whole: "og:title_alt" is not "og:title".
-			importantName := prefixWithColon + importantProperty.Name
-			if strings.HasSuffix(importantProperty.Name, ":") {
-				if !strings.HasPrefix(property, importantName) {
-					continue
-				}
-			} else if property != importantName {
+func (ps *Parser) parseProperty(property, content string) {
+	// Only store properties that we care about for distillation.
+	for _, importantProperty := range importantProperties {
+		prefixWithColon := ps.prefixes[importantProperty.Prefix] + ":"
+
+		// Note that `==` won't work for "image:" (ImageStructPropPfx), which stands
+		// for all image structured properties so as to prevent repetitive property
+		// name comparison - here and then again in ImageParser. Every other name has
+		// to match as a whole: "og:title_alt" is not "og:title".
+		importantName := prefixWithColon + importantProperty.Name
+		if strings.HasSuffix(importantProperty.Name, ":") {
+			if !strings.HasPrefix(property, importantName) {
 				continue
 			}
+		} else if property != importantName {
+			continue
+		}
 
-			addProperty := true
-			property = strings.TrimPrefix(property, prefixWithColon)
-			switch importantProperty.Type {
-			case "image":
-				addProperty = ps.imageParser.Parse(property, content, ps.propertyTable)
-			case "profile":
-				addProperty = ps.profileParser.Parse(property, content, ps.propertyTable)
-			case "article":
-				addProperty = ps.articleParser.Parse(property, content, ps.propertyTable)
-			}
+		addProperty := true
+		property = strings.TrimPrefix(property, prefixWithColon)
+		switch importantProperty.Type {
+		case "image":
+			addProperty = ps.imageParser.Parse(property, content, ps.propertyTable)
+		case "profile":
+			addProperty = ps.profileParser.Parse(property, content, ps.propertyTable)
+		case "article":
+			addProperty = ps.articleParser.Parse(property, content, ps.propertyTable)
+		}
 
-			if addProperty {
-				ps.propertyTable[importantProperty.Name] = content
-			}
+		if addProperty {
+			ps.propertyTable[importantProperty.Name] = content
 		}
 	}
 }
